@@ -22,15 +22,22 @@ type cfg struct {
 	Limit   int  // 0 = no limiter
 	Faults  bool // batch function outcome chosen by the explorer
 	Funcs   int  // number of distinct Funcs (1 or 2); caller i uses Func i%Funcs
+	// Own: the canceller cancels only caller 0's own context (derived from the batching context); the last caller
+	// is started by caller 0's thread after its Invoke has returned, with the live batching context
+	Own bool
 }
 
 func (c cfg) name() string {
-	return fmt.Sprintf("K=%d shard=%v max=%d cancel=%v limit=%d faults=%v funcs=%d", c.K, c.Shard, c.MaxSize, c.Cancel, c.Limit, c.Faults, c.Funcs)
+	s := fmt.Sprintf("K=%d shard=%v max=%d cancel=%v limit=%d faults=%v funcs=%d", c.K, c.Shard, c.MaxSize, c.Cancel, c.Limit, c.Faults, c.Funcs)
+	if c.Own {
+		s += " own=true"
+	}
+	return s
 }
 
 func parse(name string) cfg {
 	var c cfg
-	fmt.Sscanf(name, "K=%d shard=%t max=%d cancel=%t limit=%d faults=%t funcs=%d", &c.K, &c.Shard, &c.MaxSize, &c.Cancel, &c.Limit, &c.Faults, &c.Funcs)
+	fmt.Sscanf(name, "K=%d shard=%t max=%d cancel=%t limit=%d faults=%t funcs=%d own=%t", &c.K, &c.Shard, &c.MaxSize, &c.Cancel, &c.Limit, &c.Faults, &c.Funcs, &c.Own)
 	return c
 }
 
@@ -55,7 +62,7 @@ func item(c cfg) *explore.Item {
 		base := context.Background()
 		var cancel context.CancelFunc
 		cancelled := false
-		if c.Cancel {
+		if c.Cancel && !c.Own {
 			base, cancel = rt.WithCancel(base)
 		}
 		if c.Limit > 0 {
@@ -105,10 +112,17 @@ func item(c cfg) *explore.Item {
 			}
 		}
 		rets := make([]ret, c.K)
-		for i := 0; i < c.K; i++ {
-			i := i
+		own0 := ctx
+		if c.Own {
+			own0, cancel = rt.WithCancel(ctx)
+		}
+		var start func(i int)
+		start = func(i int) {
 			rt.Go(func() {
 				cctx := ctx
+				if c.Own && i == 0 {
+					cctx = own0
+				}
 				release := func() {}
 				if c.Limit > 0 {
 					var rel concurrencylimiter.ReleaseFunc
@@ -118,7 +132,16 @@ func item(c cfg) *explore.Item {
 				v, err := funcs[i%nf].Invoke(cctx, i)
 				release()
 				rets[i] = ret{true, v, err}
+				if c.Own && i == 0 {
+					start(c.K - 1) // a later call on the live batching context, after the cancelled caller has returned
+				}
 			})
+		}
+		for i := 0; i < c.K; i++ {
+			if c.Own && i == c.K-1 {
+				break
+			}
+			start(i)
 		}
 		if c.Cancel {
 			rt.Go(func() { cancelled = true; cancel() })
@@ -151,6 +174,17 @@ func item(c cfg) *explore.Item {
 				continue
 			}
 			cl := seen[[2]int{i % nf, i}]
+			if c.Own && i == c.K-1 && i%nf == 0 {
+				// started after the cancelled caller returned, on a live context: must be served normally
+				if cl == nil {
+					x.Fail("exactly-once", "c05/own/late-call-not-fetched", "Invoke(%d) started after the cancelled caller had returned, its own context is live, yet its argument never reached Many (err=%v)", i, r.err)
+					continue
+				}
+				if cl.outcome == 0 && (r.err != nil || r.v != f(i)) {
+					x.Fail("own-result", "c05/own/late-call-result", "Invoke(%d) on a live context returned (%v, %v), want %v", i, r.v, r.err, f(i))
+				}
+				continue
+			}
 			if cl == nil {
 				if !cancelled {
 					x.Fail("exactly-once", "", "arg %d never reached Many although the context was not cancelled", i)
@@ -204,6 +238,11 @@ func configs(tier string) []cfg {
 			}
 		}
 		out = append(out, cfg{K: k, MaxSize: 2, Funcs: 2}, cfg{K: k, MaxSize: 0, Funcs: 2, Limit: 1})
+		// per-caller contexts: one caller cancelled, a later call on the live batching context
+		for _, max := range []int{0, 2} {
+			out = append(out, cfg{K: k, MaxSize: max, Cancel: true, Funcs: 1, Own: true})
+		}
+		out = append(out, cfg{K: k, Shard: true, Cancel: true, Funcs: 1, Own: true}, cfg{K: k, Cancel: true, Funcs: 1, Own: true, Limit: 1})
 	}
 	return out
 }
@@ -219,5 +258,5 @@ func run(rp *explore.Report, tier string) {
 func init() {
 	reg.Register(&reg.Harness{Property: "C05", Name: "c05/batch", Level: "model_checking", Bounds: [2]int{3, 4}, Run: run,
 		Item: func(name string) *explore.Item { return item(parse(name)) },
-		Rule: "items = callers K x shard function x MaxSize x canceller thread x concurrency limiter size x batch-function outcome (explorer choice: ok/error/panic/short); all interleavings incl. early firings of the virtual wait-interval and max-duration timers within the deviation bound, on the real batch.Func.Invoke; non-trivial = K>1 concurrent callers"})
+		Rule: "items = callers K x shard function x MaxSize x canceller thread (cancelling everything, or only one caller's own context with a later call on the live batching context) x concurrency limiter size x batch-function outcome (explorer choice: ok/error/panic/short); all interleavings incl. early firings of the virtual wait-interval and max-duration timers within the deviation bound, on the real batch.Func.Invoke; non-trivial = K>1 concurrent callers"})
 }
